@@ -699,7 +699,7 @@ def context_case(ctx, G, R, name, e, sx, scen, caller, ne, reps):
 def context_section(ctx, G, R, base):
     rng = ctx.rng
     progs = [(n, e, G.to_sx(e)) for n, e in ctx_corpus().items()]
-    for i in range(ctx.n(2, 50)):
+    for i in range(ctx.n(1, 50)):
         prng = random.Random(base * 5 + i)
         gen = G.Gen(prng, p_err=prng.choice([0.0, 0.0, 0.1]), max_fan=2)
         gen.ctx_heavy = True
@@ -751,7 +751,7 @@ def run(ctx):
     rng = ctx.rng
     progs = [(name, e, G.to_sx(e)) for name, e in corpus().items()]
     base = rng.getrandbits(48)
-    for i in range(ctx.n(5, 50)):
+    for i in range(ctx.n(3, 50)):
         prng = random.Random(base + i)
         gen = G.Gen(prng, p_err=prng.choice([0.0, 0.1, 0.25]), max_fan=3)
         for _ in range(30):
